@@ -253,6 +253,24 @@ var schemaMutations = []schemaMutation{
 		f.Directives = append(f.Directives, &ast.Directive{Name: "boundary"})
 		return true
 	}},
+	{"lookups_without_boundary_objects", false, func(r *rand.Rand, doc *ast.SchemaDocument) bool {
+		// the tag removed from EVERY boundary object while the marked lookups stay: each of them now returns a type that is
+		// not a boundary type, in a schema without a single boundary object
+		bs := boundaryDefs(doc)
+		if len(bs) == 0 {
+			return false
+		}
+		for _, d := range bs {
+			var keep ast.DirectiveList
+			for _, x := range d.Directives {
+				if x.Name != "boundary" {
+					keep = append(keep, x)
+				}
+			}
+			d.Directives = keep
+		}
+		return true
+	}},
 	// ---- the directive definitions
 	{"bnddir_args", false, func(r *rand.Rand, doc *ast.SchemaDocument) bool {
 		d := dirDef(doc, "boundary")
@@ -597,12 +615,12 @@ var lookupErrorMarks = []string{"could not find BoundaryFieldsMap entry", "could
 
 func runC09(cfg runCfg) error {
 	sum := &summary{Property: "C09", Seed: cfg.seed, Features: map[string]int{}, CaseInputs: map[string]interface{}{},
-		Rule: "service schemas of random federations (as generated for C07) x ONE of 40 schema mutations applied at a random applicable position (service field, Service type, boundary key, lookups in single and array form, directive definitions, namespace links, root names, validity after merge, no Query type; three of them conforming variants: array lookup, cyclic namespaces, and the former Node syntax) or none; the mutated schema must still load as GraphQL; observed: ValidateSchema verdict and stage; for accepted schemas the federation is polled and served and 3 valid queries each must meet no planning or lookup error; non-trivial = a mutation was applied"}
+		Rule: "service schemas of random federations (as generated for C07) x ONE of 50 schema mutations, taken in turn, applied at a random applicable position (service field, Service type, boundary key, lookups in single and array form, directive definitions, namespace links, root names, validity after merge, no Query type; three of them conforming variants: array lookup, cyclic namespaces, and the former Node syntax) or none; the mutated schema must still load as GraphQL; observed: ValidateSchema verdict and stage; for accepted schemas the federation is polled and served and 3 valid queries each must meet no planning or lookup error; non-trivial = a mutation was applied"}
 	w := &caseWriter{dir: cfg.out, shard: 40, check: "check_validate_case",
 		imports: "From V Require Import Base.Util Gql.Ast Model.Merge Model.Validate Corr.ValidateCheck."}
 	distinct := 0
-	skippedInvalid := 0
-	for ci := 0; len(w.cases) < cfg.n && ci < cfg.n*6; ci++ {
+	skippedInvalid, offset, misses := 0, 0, 0
+	for ci := 0; len(w.cases) < cfg.n && ci < cfg.n*12; ci++ {
 		r := rand.New(rand.NewSource(cfg.seed*1000003 + int64(ci)*7919 + 9))
 		name := fmt.Sprintf("c09-%d-%d", cfg.seed, ci)
 		gf := genFederationSDL(r)
@@ -611,14 +629,21 @@ func runC09(cfg runCfg) error {
 			continue
 		}
 		svc := fed.Services[r.Intn(len(fed.Services))]
-		mut := schemaMutations[r.Intn(len(schemaMutations))]
+		// every mutation in turn (a draw would leave the rarely applicable ones to chance); one that does not apply to
+		// a dozen federations in a row is passed over for this round
+		mut := schemaMutations[(len(w.cases)+offset)%len(schemaMutations)]
 		doc, perr := parser.ParseSchema(&ast.Source{Name: svc.Name, Input: svc.SDL})
 		if perr != nil {
 			return fmt.Errorf("cannot parse generated service schema: %v", perr)
 		}
 		if !mut.apply(r, doc) {
+			if misses++; misses >= 12 {
+				misses, offset = 0, offset+1
+				sum.Features["passed_over_"+mut.name]++
+			}
 			continue
 		}
+		misses = 0
 		sdl := formatSchemaDoc(doc)
 		schema, gerr := gqlparser.LoadSchema(&ast.Source{Name: svc.Name, Input: sdl})
 		if gerr != nil {
